@@ -16,10 +16,11 @@ def step (st : St) (ws : List String) : Option (St × String) :=
     (decChars sec).map (fun s =>
       let (st', r, l) := add st u (lvlOf lvl) s (rest.contains "expired")
       (st', if r = .ok then s!"ok lvl={l}" else resName r))
-  | "upd" :: u :: _ :: sec :: rest =>
+  | "upd" :: u :: lvl :: sec :: rest =>
     (decChars sec).map (fun s =>
-      let (st', r, l) := update st u s (rest.contains "expired")
-      (st', if r = .ok then s!"ok lvl={l}" else resName r))
+      let (st', r, _) := update st u s (rest.contains "expired")
+      -- UpdateRecord hands the caller's record back: the level printed is the one passed in, the stored level is kept
+      (st', if r = .ok then s!"ok lvl={lvlOf lvl}" else resName r))
   | ["auth", sec] =>
     (decChars sec).map (fun s =>
       match authenticate st s with
